@@ -2,6 +2,7 @@ package utils
 
 import (
 	"runtime"
+	"sync"
 	"time"
 )
 
@@ -10,9 +11,18 @@ type Timer struct {
 	sleep  time.Duration
 	fn     func()
 	stopCh chan struct{}
+
+	// mu orders Stop and Refresh against an interval's reaction to a tick it has
+	// already received: a stopped interval must not re-arm itself.
+	mu      sync.Mutex
+	stopped bool
 }
 
 func (t *Timer) Refresh() *Timer {
+	t.mu.Lock()
+	defer t.mu.Unlock()
+	t.stopped = false
+
 	defer t.timer.Reset(t.sleep)
 
 	if !t.timer.Stop() {
@@ -62,7 +72,12 @@ func ClearTimeout(timer *Timer) {
 }
 
 func (t *Timer) Stop() {
-	if t.timer.Stop() {
+	t.mu.Lock()
+	t.stopped = true
+	pending := t.timer.Stop()
+	t.mu.Unlock()
+
+	if pending {
 		verifYield("stop:before-signal")
 		t.stopCh <- struct{}{}
 	}
@@ -79,8 +94,16 @@ func SetInterval(fn func(), sleep time.Duration) *Timer {
 			select {
 			case <-timer.timer.C:
 				verifYield("interval:tick")
+				timer.mu.Lock()
+				if timer.stopped {
+					// cancelled after this tick was received: Stop found the runtime
+					// timer idle and sent no signal, so leave instead of re-arming
+					timer.mu.Unlock()
+					return
+				}
 				timer.timer.Reset(timer.sleep)
 				go fn()
+				timer.mu.Unlock()
 			case <-timer.stopCh:
 				return
 			}
